@@ -352,6 +352,23 @@ theorem gate_honest_never_flagged_partial (C : Nat → Commitment) (last : Optio
       simp [hm, hgl, this]
       exact ⟨⟨hc, fun a b h => hcache (a, b) h⟩, by simpa [hgl] using hlast, hl2, fun a b h l hl => hbound (a, b) h l hl⟩
 
+/-- **The node reports a conflicting signed commitment** (after the D16 `fix:`): when the blockstore already
+    caches a commitment for the slice and a shred arrives that the leader key validly signed for a *different*
+    commitment of that slot and slice, `handle_disseminator_shred` flags the leader (the snapshot dropped the
+    `Equivocation` verdict of `try_new` silently, so at node level the conflict was never reported). -/
+theorem node_conflict_reported (env : Env) (g : Gate) (s : Shred) (pk : Nat) (c : Commitment)
+    (hc : g.cached s.header.sliceIdx = some c) (hne : s.claimed env ≠ c) (hsig : s.sig = .signed pk (s.claimed env)) :
+    (g.nodeHandle env s pk).misbehaved = true := by
+  unfold Gate.nodeHandle
+  rw [hc, (cache_only_identical env s c pk).2.1 hne hsig]
+
+/-- a shred with a bad signature, or one that merely fails to match the cache without a valid signature, never
+    changes the node's gate (so it cannot flag a correct leader) -/
+theorem node_invalid_ignored (env : Env) (g : Gate) (s : Shred) (pk : Nat)
+    (h : validate env s (g.cached s.header.sliceIdx) pk = .error .invalidSignature) :
+    g.nodeHandle env s pk = g := by
+  unfold Gate.nodeHandle; rw [h]
+
 /-! ### the tag is not bound (defect D15) and non-vacuity -/
 
 section Witness
